@@ -82,6 +82,14 @@ func runC02(w *h.W, batch int) {
 		}
 		corp := gen.MakeCorpus(cr, opt)
 		form := []string{"active", "sealed", "two-fracs", "active-interleaved", "sealed-interleaved", "many-fracs"}[cr.Intn(6)]
+		if batch%16 == 5 && ci == 0 {
+			// posting lists that span several LID blocks (> 64Ki postings of one token, lists ending at / continued over a block
+			// edge): range borders then fall into the first, a middle or the last block of a list
+			sh := gen.MakeShape(cr, h.Pick(cr, []string{"hot-token", "lid-fill", "long-posting-tail"}), cr.Intn(4), fmt.Sprintf("b%dshape", batch))
+			corp = sh.Corpus
+			opt.N = len(corp.Docs)
+			form = h.Pick(cr, []string{"sealed", "two-fracs"})
+		}
 		dir := w.Sub(fmt.Sprintf("c%d", ci))
 		sopt := sdb.Opt{Mapping: StoreMapping()}
 		if form == "many-fracs" {
